@@ -278,6 +278,8 @@ class Run:
             while not self.net.queue.empty():
                 conn, data = self.net.queue.get_nowait()
                 k = conn.tag
+                if k in pending and conn.sent_eof:
+                    self.log(ev="Reply", c=k + 1, b=[], src="script")            # the read before this write returned b'' at once
                 self.log(ev="Write", c=k + 1, b=list(data), clk=vnet.clk_ceil())
                 _store_if_create(data, self.devs[k])
                 pending[k] = data
@@ -363,3 +365,140 @@ def quick_capture() -> list[bytes]:
                     {"op": "control_device", "a": {"on": 1, "minutes": 30}, "replies": [{"t": "login", "seed": 6}, {"t": "ack"}]}]]}
     evs = run_scenario(scn)
     return [bytes(e["b"]) for e in evs if e["ev"] == "Write"]
+
+
+# ----------------------------------------------------------------------------------------
+# spec -> code: environment scripts generated by TLC (Gen_Client) replayed against the real clients
+PLAIN_SET = {"IRSetID": "X", "OnOffType": 0, "IRWaveList": [{"Key": "ar20_f1", "Para": "P", "HexCode": "Har20_f1"},
+                                                            {"Key": "off", "Para": "P", "HexCode": "Hoff"}]}
+SEP_SET = {"IRSetID": "ELEC7022", "OnOffType": 1, "IRWaveList": [{"Key": "ar20_f1", "Para": "P", "HexCode": "Har20_f1"},
+                                                                 {"Key": "on_ar20_f1", "Para": "P", "HexCode": "Hon_ar20_f1"},
+                                                                 {"Key": "FUN_d1", "Para": "P", "HexCode": "HFUN_d1"}]}
+
+
+def _concrete_op(act: dict, rng: random.Random) -> dict:
+    op, arg = act["op"], act["arg"]
+    if op == "control_device":
+        a = {"ok": {"on": 1, "minutes": 0}, "reject": {"on": 1, "minutes_s": "4294967296"}, "open": {"on": 1, "minutes": -5}}[arg]
+    elif op == "create_schedule":
+        a = {"zone": [[0, 0]], "now": 0, "days": [0], "form": "set", "start_s": "07:30", "end_s": "08:15"}
+        if arg == "reject":
+            a["end_s"] = "25:00"
+    elif op == "control_breeze_device":
+        sh = act["shape"]
+        a = {"irset": PLAIN_SET if sh["set"] == "plain" else SEP_SET, "state": sh["state"], "mode": sh["mode"], "temp": sh["temp"],
+             "fan": sh["fan"], "swing": sh["swing"], "update": bool(sh["update"])}
+    else:
+        a = {}
+    return {"op": op, "a": a, "replies": []}
+
+
+def _concrete_reply(act: dict, rng: random.Random) -> dict:
+    seed = rng.randrange(1 << 30)
+    if act["empty"]:
+        return {"t": "eof"}
+    if act["phase"] == "waitlogin":
+        return {"t": "login", "seed": seed, "len": 44} if act["carried"] else {"t": "short", "seed": seed, "n": 5}
+    if act["wf"]:
+        if act["op"] == "get_state":
+            return {"t": "state1", "seed": seed, "state": 1, "watts": 1500, "left": 60, "on": 120, "auto": 3600}
+        if act["op"] == "get_shutter_state":
+            return {"t": "shutter", "seed": seed, "position": 40, "direction": [0, 0]}
+        th = act["th"]
+        return {"t": "thermo", "seed": seed, "temp10": 250, "state": th["state"], "mode": th["mode"], "target": th["target"],
+                "fan": th["fan"], "swing": th["swing"], "remote": "ELEC7022"}
+    return {"t": "garbage", "seed": seed, "n": 60}
+
+
+class ScriptRun(Run):
+    async def _main(self):
+        from aioswitcher.api import SwitcherType1Api, SwitcherType2Api
+        scn = self.scn
+        rng = random.Random(scn.get("seed", 1))
+        self.net.queue = asyncio.Queue()
+        for k, inst in enumerate(scn["inst"]):
+            host = HOSTS[k]
+            self.net.listen(host, 9957 if inst["api"] == 1 else 10000, True)
+            cls = SwitcherType1Api if inst["api"] == 1 else SwitcherType2Api
+            api = cls(host, inst["dev"], inst["key"])
+            self.apis.append(api)
+            self.devs.append({"slots": [], "pending": None})
+            self.log(ev="Open", c=k + 1, api=inst["api"], dev=list(unhexlify(inst["dev"])), key=list(unhexlify(inst["key"])))
+            await api.connect()
+            self.net.conns[-1].tag = k
+            self.log(ev="Connect", c=k + 1, ok=True, flag=bool(api.connected))
+        n = len(scn["inst"])
+        tasks: list = [None] * n
+        cur: list = [None] * n
+        pending: dict[int, bytes] = {}
+        self.skipped = 0
+
+        async def collect():
+            await vnet.settle(3)
+            while not self.net.queue.empty():
+                conn, data = self.net.queue.get_nowait()
+                if conn.tag in pending and conn.sent_eof:
+                    self.log(ev="Reply", c=conn.tag + 1, b=[], src="script")     # the read before this write returned b'' at once
+                self.log(ev="Write", c=conn.tag + 1, b=list(data), clk=vnet.clk_ceil())
+                _store_if_create(data, self.devs[conn.tag])
+                pending[conn.tag] = data
+            for k in range(n):
+                t = tasks[k]
+                if t is not None and t.done():
+                    tasks[k] = None
+                    res, exc = t.result()
+                    if k in pending and any(c.tag == k and c.sent_eof for c in self.net.conns):
+                        self.log(ev="Reply", c=k + 1, b=[], src="script")
+                    self._ret(k, cur[k], res, exc)
+                    pending.pop(k, None)
+
+        for act in scn["script"]:
+            if act["a"] == "tick":
+                self.clk.shift(1.0)
+                continue
+            k = act["c"] - 1
+            if act["a"] == "call":
+                if tasks[k] is not None:
+                    self.skipped += 1
+                    continue
+                op = _concrete_op(act, rng)
+                if op["op"] in ("create_schedule", "get_schedules"):
+                    import time as _t
+                    op["a"]["now"] = int(_t.time())
+                    op["a"]["zone"] = zone_rules(scn.get("zone", "UTC"), op["a"]["now"], span_days=5)
+                cur[k] = op
+                self.log(ev="Call", c=k + 1, op=op["op"], a=_spec_args(op["op"], op["a"]), clk=vnet.clk_floor())
+                tasks[k] = asyncio.ensure_future(self._wrap(_make_call(self.apis[k], op["op"], op["a"], self.remotes)))
+                await collect()
+            elif act["a"] == "reply":
+                if k not in pending:
+                    self.skipped += 1
+                    continue
+                pending.pop(k)
+                conn = next(c for c in self.net.conns if c.tag == k and not c.closing)
+                data = b"" if conn.sent_eof else devreply(_concrete_reply(act, rng), self.devs[k])
+                self.log(ev="Reply", c=k + 1, b=list(data), src="script")
+                conn.feed(data)
+                await collect()
+        # let every unfinished call end: the device ends the stream
+        for _ in range(8):
+            if not pending:
+                break
+            for k in list(pending):
+                pending.pop(k)
+                conn = next(c for c in self.net.conns if c.tag == k and not c.closing)
+                self.log(ev="Reply", c=k + 1, b=[], src="script")
+                conn.feed(b"")
+            await collect()
+        for k, api in enumerate(self.apis):
+            if tasks[k] is not None:
+                tasks[k].cancel()
+            await api.disconnect()
+            await vnet.settle(3)
+            conn = [c for c in self.net.conns if c.tag == k][-1]
+            self.log(ev="Disc", c=k + 1, how="disconnect", raised=False, flag=bool(api.connected), eof=bool(conn.closed_seen))
+
+
+def run_script(scn: dict) -> list[dict]:
+    with host_zone(scn.get("zone", "UTC")), frozen(scn["t0"]) as clk:
+        return ScriptRun(scn).go(clk)
